@@ -617,10 +617,57 @@ func buildDefinition(spec *Spec, w *world) (def *graphql.SchemaDefinition, named
 		if directives[d.Name] != nil {
 			fail("duplicate directive %s", d.Name)
 		}
-		directives[d.Name] = &graphql.DirectiveDefinition{
+		dd := &graphql.DirectiveDefinition{
 			Arguments: mkArgs(d.Args, "@"+d.Name),
 			Locations: []gschema.DirectiveLocation{gschema.DirectiveLocationField, gschema.DirectiveLocationFragmentSpread, gschema.DirectiveLocationInlineFragment},
 		}
+		for _, dn := range d.Defaults {
+			for _, a := range d.Args {
+				if a.Name != dn {
+					continue
+				}
+				t := parseType(a.Type)
+				if t.kind == 2 {
+					t = t.inner
+				}
+				if t.kind != 0 {
+					continue // list-typed: no default
+				}
+				var dv interface{}
+				switch t.name {
+				case "Int":
+					dv = 7
+				case "String":
+					dv = "dflt"
+				case "Boolean":
+					dv = true
+				case "ID":
+					dv = "id0"
+				case "Float":
+					dv = 1.5
+				default:
+					if ts := spec.find(t.name); ts != nil && ts.Kind == "enum" && len(ts.Values) > 0 {
+						dv = ts.Values[0]
+					} else if ts != nil && ts.Kind == "scalar" && ts.Builtin == "" {
+						dv = "sc0"
+					}
+				}
+				if dv != nil {
+					dd.Arguments[a.Name].DefaultValue = dv
+				}
+			}
+		}
+		if d.Filter {
+			dname := d.Name
+			dd.FieldCollectionFilter = func(arguments map[string]interface{}) bool {
+				// the decision depends on the whole map the executor built (keys and values, defaults
+				// included), and the map is logged: an argument the request cannot see must not be in it
+				c := canonArgs(arguments)
+				w.logCall("@" + dname + " " + c)
+				return h64("filter", dname, c)%3 != 0
+			}
+		}
+		directives[d.Name] = dd
 	}
 	def = &graphql.SchemaDefinition{
 		Query:           q,
